@@ -282,6 +282,10 @@ def main(argv=None):
         from . import apisim
 
         return apisim.fresh_main(argv[1])
+    if argv[0] == "_resim":
+        from . import apisim
+
+        return apisim.resim_main(argv[1])
     if argv[0] == "_digests":
         from . import selftest
 
